@@ -16,6 +16,43 @@ use stretto::{Cache, CacheBuilder, CacheCallback, CacheError, Coster, Item, KeyB
 #[derive(Default, Clone)]
 pub struct SplitKeyBuilder;
 
+// A user-supplied piece doubles as a yield point: when a client thread has armed the gate, its
+// next `hash_index` (which `insert`/`get`/`remove` call right after their closed-check) parks
+// until the scheduler releases it.
+thread_local! {
+    static GATE_ARMED: std::cell::Cell<bool> = std::cell::Cell::new(false);
+}
+static GATE_PARKED: std::sync::atomic::AtomicBool = std::sync::atomic::AtomicBool::new(false);
+static GATE_OPEN: std::sync::atomic::AtomicBool = std::sync::atomic::AtomicBool::new(false);
+
+/// scheduler side, before spawning the client thread
+pub fn gate_prepare() {
+    GATE_PARKED.store(false, std::sync::atomic::Ordering::SeqCst);
+    GATE_OPEN.store(false, std::sync::atomic::Ordering::SeqCst);
+}
+
+/// client side, first thing on the new thread
+pub fn gate_arm() {
+    GATE_ARMED.with(|g| g.set(true));
+}
+
+pub fn gate_parked() -> bool {
+    GATE_PARKED.load(std::sync::atomic::Ordering::SeqCst)
+}
+
+pub fn gate_release() {
+    GATE_OPEN.store(true, std::sync::atomic::Ordering::SeqCst);
+}
+
+fn gate_point() {
+    if GATE_ARMED.with(|g| g.replace(false)) {
+        GATE_PARKED.store(true, std::sync::atomic::Ordering::SeqCst);
+        while !GATE_OPEN.load(std::sync::atomic::Ordering::SeqCst) {
+            std::thread::sleep(Duration::from_micros(50));
+        }
+    }
+}
+
 #[derive(Default)]
 struct Capture(u64);
 impl Hasher for Capture {
@@ -40,6 +77,7 @@ impl KeyBuilder for SplitKeyBuilder {
         Self::Key: core::borrow::Borrow<Q>,
         Q: Hash + Eq + ?Sized,
     {
+        gate_point();
         let mut h = Capture::default();
         key.hash(&mut h);
         h.finish() & 0xffff_ffff
@@ -311,6 +349,8 @@ pub struct Stepper<'a> {
     pub next_id: u64,
     pub blocked: Vec<Blocked>,
     pub grace_ms: u64,
+    /// an insert parked right after its closed-check: (call id, thread)
+    pub parked_insert: Option<(u64, JoinHandle<String>)>,
 }
 
 impl<'a> Stepper<'a> {
@@ -318,7 +358,7 @@ impl<'a> Stepper<'a> {
         verif::clock::set_manual(start_ns);
         verif::obs_enable(true);
         verif::obs_drain();
-        Stepper { rig, out, now: start_ns, next_val: 1, next_id: 1, blocked: Vec::new(), grace_ms: 25 }
+        Stepper { rig, out, now: start_ns, next_val: 1, next_id: 1, blocked: Vec::new(), grace_ms: 25, parked_insert: None }
     }
 
     pub fn emit(&mut self, act: &str, ans: &str) {
@@ -352,6 +392,58 @@ impl<'a> Stepper<'a> {
         };
         self.emit(&format!("c.insert {} {} {} {} {} {} {}", idx, conf, v, cost, ttl_ns, coster, only as u8), &ans);
         ret
+    }
+
+    /// first half of an insert: the call passes its closed-check and parks before doing anything
+    pub fn insert_begin(&mut self, idx: u64, conf: u64, cost: i64, ttl_ns: u64, only: bool) {
+        if self.parked_insert.is_some() {
+            return;
+        }
+        let v = self.next_val;
+        self.next_val += 1;
+        let id = self.next_id;
+        self.next_id += 1;
+        let coster = self.rig.coster.value(v);
+        let key = mk_key(idx, conf);
+        let c = self.rig.cache.clone();
+        gate_prepare();
+        let h = std::thread::spawn(move || {
+            gate_arm();
+            let r = crate::catch(|| {
+                if only {
+                    c.try_insert_if_present(key, v, cost)
+                } else {
+                    c.try_insert_with_ttl(key, v, cost, Duration::from_nanos(ttl_ns))
+                }
+            });
+            match r {
+                Some(Ok(b)) => format!("{}", b as u8),
+                Some(Err(_)) => "err".to_string(),
+                None => "PANIC".to_string(),
+            }
+        });
+        // parked at the gate, or returned at once (closed)
+        let t0 = Instant::now();
+        while !gate_parked() && !h.is_finished() && t0.elapsed() < Duration::from_secs(5) {
+            std::thread::sleep(Duration::from_micros(100));
+        }
+        let act = format!("c.insert.begin {} {} {} {} {} {} {} {}", id, idx, conf, v, cost, ttl_ns, coster, only as u8);
+        if h.is_finished() {
+            let r = h.join().unwrap_or_else(|_| "PANIC".to_string());
+            self.emit(&act, &format!("ret={}", r));
+        } else {
+            self.emit(&act, "ret=parked");
+            self.parked_insert = Some((id, h));
+        }
+    }
+
+    /// second half: the parked insert goes on (store update, buffer send) and returns
+    pub fn insert_finish(&mut self) {
+        if let Some((id, h)) = self.parked_insert.take() {
+            gate_release();
+            let r = if finished_within(&h, 5000) { h.join().unwrap_or_else(|_| "PANIC".to_string()) } else { "HANG".to_string() };
+            self.emit(&format!("c.insert.finish {}", id), &format!("ret={}", r));
+        }
     }
 
     pub fn get(&mut self, idx: u64, conf: u64) {
@@ -623,6 +715,7 @@ impl<'a> Stepper<'a> {
 
     /// end of life: everything blocked must have returned once the workers are drained
     pub fn finish(&mut self) {
+        self.insert_finish();
         self.drain();
         self.reap(300);
         let left: Vec<Blocked> = std::mem::take(&mut self.blocked);
@@ -687,6 +780,21 @@ pub fn cache_life(out: &mut Out, rng: &mut Rng, cfg: &Config, g: &GenOpts) {
     for _ in 0..g.ops {
         let idx = rng.below(universe);
         let conf = if g.collisions { rng.range(1, 2) } else { 0 };
+        // an insert parked after its closed-check resumes after a few other steps
+        if s.parked_insert.is_some() && rng.chance(1, 3) {
+            s.insert_finish();
+            continue;
+        }
+        if s.parked_insert.is_none() && rng.chance(1, 25) {
+            let cost = if rng.chance(1, 2) { 0 } else { 1 };
+            s.insert_begin(idx, conf, cost, 0, false);
+            if rng.chance(1, 3) && !closed {
+                // the interesting neighbour: a close() slipping in right here
+                s.close();
+                closed = true;
+            }
+            continue;
+        }
         // while a close() is in flight, interleave its processor-side steps with client calls
         if s.blocked.iter().any(|b| b.kind == "close") && rng.chance(1, 2) {
             match rng.below(4) {
@@ -736,6 +844,22 @@ pub fn cache_life(out: &mut Out, rng: &mut Rng, cfg: &Config, g: &GenOpts) {
             continue;
         }
         let r2 = rng.below(100);
+        // churn pattern on one key: a remove racing the admission of the insert before it, then
+        // the key is used again (C02, C04, C06, C08 scenarios that random picking rarely lines up)
+        if !closed && rng.chance(1, 40) {
+            let ttl = if rng.below(100) < g.w_ttl { 3600 * SEC } else { 0 };
+            s.insert(idx, conf, 1, ttl, false);
+            s.remove(idx, conf);
+            if rng.chance(1, 2) {
+                s.get(idx, conf);
+            }
+            s.drain();
+            s.get(idx, conf);
+            s.insert(idx, conf, 1, 0, false);
+            s.drain();
+            s.get(idx, conf);
+            continue;
+        }
         if r2 < g.w_clear {
             s.clear();
         } else if r2 < g.w_clear + g.w_wait {
@@ -862,6 +986,13 @@ pub fn replay_script(out: &mut Out, script: &str) {
                     s.next_val = n(3);
                     s.insert(n(1), n(2), ni(4), n(5), n(7) == 1);
                 }
+                "c.insert.begin" => {
+                    // c.insert.begin id idx conf val cost ttl coster only
+                    s.next_id = n(1);
+                    s.next_val = n(4);
+                    s.insert_begin(n(2), n(3), ni(5), n(6), n(8) == 1);
+                }
+                "c.insert.finish" => s.insert_finish(),
                 "c.get" => s.get(n(1), n(2)),
                 "c.getmut" => {
                     s.next_val = n(3);
